@@ -746,7 +746,25 @@ impl<const M: usize> Sim<M> {
         let id = self.id;
         let r = {
             let _g = enter_arena(id);
+            let plain = hd.ctor & 8 != 0;
             std::panic::catch_unwind(|| -> Option<Bump<M>> {
+                if M == 1 && plain {
+                    // the constructors that only exist on the default Bump (MIN_ALIGN = 1)
+                    let b1: Option<Bump<1>> = match (variant, fallible) {
+                        (0, false) => Some(Bump::new()),
+                        (0, true) => Bump::try_new().ok(),
+                        (_, false) => Some(Bump::with_capacity(cap)),
+                        (_, true) => Bump::try_with_capacity(cap).ok(),
+                    };
+                    return b1.map(|b| {
+                        let any: Box<dyn std::any::Any> = {
+                            let _u = ledger::enter_user();
+                            Box::new(b)
+                        };
+                        let _u = ledger::enter_user();
+                        *any.downcast::<Bump<M>>().expect("M == 1")
+                    });
+                }
                 match (variant, fallible) {
                     (0, false) => Some(Bump::<M>::with_min_align()),
                     (0, true) => Some(Bump::<M>::default()),
